@@ -27,8 +27,9 @@ import (
 )
 
 type vStore struct {
-	mu sync.Mutex
-	m  map[string][]byte
+	mu       sync.Mutex
+	m        map[string][]byte
+	headMiss int // status of HEAD for an object that is absent (real back ends answer 404, 403, 405, 503, …)
 }
 
 func (s *vStore) ServeHTTP(w http.ResponseWriter, r *http.Request) {
@@ -46,6 +47,10 @@ func (s *vStore) ServeHTTP(w http.ResponseWriter, r *http.Request) {
 	case http.MethodGet, http.MethodHead:
 		b, ok := s.m[r.URL.Path]
 		if !ok {
+			if r.Method == http.MethodHead && s.headMiss != 0 {
+				w.WriteHeader(s.headMiss)
+				return
+			}
 			w.WriteHeader(404)
 			return
 		}
@@ -89,7 +94,7 @@ func TestVerifHTTPProxyRoundTrip(t *testing.T) {
 	defer srv.Close()
 	silent := log.New(io.Discard, "", 0)
 	ctx := context.Background()
-	rec.Set("rule", "4 base URL shapes (no path, path, trailing slash, nested path) x both storage modes x CAS/AC/RAW x sizes 1 B .. 200 KiB: Put through httpproxy into a recording HTTP server, path compared with the published naming, Contains and Get back")
+	rec.Set("rule", "4 base URL shapes (no path, path, trailing slash, nested path) x both storage modes x CAS/AC/RAW x status of HEAD for an absent object in {404, 405, 403, 503, 500} x sizes 1 B .. 200 KiB: Put through httpproxy into a recording HTTP server, path compared with the published naming, Contains and Get back")
 	for _, base := range []string{"", "/cache", "/cache/", "/a/b"} {
 		for _, mode := range []string{"zstd", "uncompressed"} {
 			u, _ := url.Parse(srv.URL + base)
@@ -99,6 +104,10 @@ func TestVerifHTTPProxyRoundTrip(t *testing.T) {
 			}
 			for _, kind := range []cache.EntryKind{cache.CAS, cache.AC, cache.RAW} {
 				rec.Case()
+				st.mu.Lock()
+				st.headMiss = []int{404, 405, 403, 503, 500}[rng.Intn(5)]
+				hm := st.headMiss
+				st.mu.Unlock()
 				n := []int{1, 100, 4096, 200 * 1024}[rng.Intn(4)]
 				data := rng.Bytes(n)
 				sum := sha256.Sum256(data)
@@ -122,7 +131,7 @@ func TestVerifHTTPProxyRoundTrip(t *testing.T) {
 					}
 					time.Sleep(10 * time.Millisecond)
 				}
-				sig := fmt.Sprintf("base=%q mode=%s kind=%s", base, mode, kind.String())
+				sig := fmt.Sprintf("base=%q mode=%s kind=%s head-of-absent=%d", base, mode, kind.String(), hm)
 				rec.Note(sig + fmt.Sprintf(" -> %s arrived=%v", want, arrived))
 				rec.Count(fmt.Sprintf("arrived=%v", arrived))
 				rec.Distinct(sig)
